@@ -187,6 +187,18 @@ func NumericUint64Do(op NumericOp, a, b *SexpUint64) Sexp {
 	return SexpNull
 }
 
+// numericDivMixedSign divides an int64 and a uint64 (in either order) of
+// which the int64 is negative, by their mathematical values: reinterpreting
+// a negative int64 as uint64 is harmless for + - * (same result modulo 2^64)
+// but not for the quotient. ma and mb are the magnitudes, fa and fb the
+// operands as floats; the quotient is negative (or zero).
+func numericDivMixedSign(ma, mb uint64, fa, fb float64) Sexp {
+	if ma%mb == 0 && ma/mb <= 1<<63 {
+		return &SexpInt{Val: -int64(ma / mb)}
+	}
+	return &SexpFloat{Val: fa / fb}
+}
+
 func NumericMatchFloat(op NumericOp, a *SexpFloat, b Sexp) (Sexp, error) {
 	var fb *SexpFloat
 	switch tb := b.(type) {
@@ -214,6 +226,9 @@ func NumericMatchInt(op NumericOp, a *SexpInt, b Sexp) (Sexp, error) {
 	case *SexpInt:
 		return NumericIntDo(op, a, tb), nil
 	case *SexpUint64:
+		if op == Div && a.Val < 0 {
+			return numericDivMixedSign(uint64(-a.Val), tb.Val, float64(a.Val), float64(tb.Val)), nil
+		}
 		return NumericUint64Do(op, &SexpUint64{Val: uint64(a.Val)}, tb), nil
 	case *SexpChar:
 		return NumericIntDo(op, a, &SexpInt{Val: int64(tb.Val)}), nil
@@ -229,6 +244,9 @@ func NumericMatchUint64(op NumericOp, a *SexpUint64, b Sexp) (Sexp, error) {
 	case *SexpFloat:
 		return NumericFloatDo(op, &SexpFloat{Val: float64(a.Val)}, tb), nil
 	case *SexpInt:
+		if op == Div && tb.Val < 0 {
+			return numericDivMixedSign(a.Val, uint64(-tb.Val), float64(a.Val), float64(tb.Val)), nil
+		}
 		return NumericUint64Do(op, a, &SexpUint64{Val: uint64(tb.Val)}), nil
 	case *SexpUint64:
 		return NumericUint64Do(op, a, tb), nil
